@@ -18,6 +18,9 @@ type Case struct {
 	Powers []int64  `json:"powers"`
 	Byz    []int    `json:"byz"` // ids of Byzantine validators (constructed so that 3*power(Byz) < total)
 	Ops    []sim.Op `json:"ops"`
+	// ViaSwitch: nodes enter consensus (at start and after restarts) through
+	// ConsensusReactor.SwitchToConsensus, as nodes with fast_sync enabled do
+	ViaSwitch bool `json:"viaSwitch,omitempty"`
 }
 
 func GenPowers(t *rapid.T, maxN int) []int64 {
@@ -106,6 +109,7 @@ func genCase(t *rapid.T) Case {
 		kinds = attackKinds
 	}
 	c.Ops = rapid.SliceOfN(rapid.Custom(genOpFrom(kinds)), 10, 260).Draw(t, "ops")
+	c.ViaSwitch = rapid.IntRange(0, 3).Draw(t, "viaSwitch") == 0
 	return c
 }
 
@@ -116,7 +120,7 @@ func runCase(c Case, x *h.Ctx) {
 	for _, i := range c.Byz {
 		byz[i] = true
 	}
-	net := sim.New(sim.Config{Powers: c.Powers, Byz: byz, Dir: dir})
+	net := sim.New(sim.Config{Powers: c.Powers, Byz: byz, Dir: dir, ViaSwitch: c.ViaSwitch})
 	defer net.Close()
 	d := sim.NewDriver(net)
 	d.LogOn = x.Replaying
@@ -180,6 +184,9 @@ func runCase(c Case, x *h.Ctx) {
 	}
 	st := d.Stats
 	x.Labelf("validators:%d", len(c.Powers))
+	if c.ViaSwitch {
+		x.Label("entered-via-switch-to-consensus")
+	}
 	x.Labelf("byz:%d", len(c.Byz))
 	x.Labelf("maxround:%s", bucket(int(st.MaxRound)))
 	x.Labelf("heights:%s", bucket(len(agreed)))
